@@ -17,6 +17,8 @@ import GqlVerif.Proofs.ModuleOkInputsMore
 import GqlVerif.Proofs.ModuleOkInputsClasses
 import GqlVerif.Proofs.C01MixedContentW
 import GqlVerif.Proofs.C01MixedContentSkip
+import GqlVerif.Proofs.C01NestedW
+import GqlVerif.Proofs.C01NestedL
 open GqlVerif.C01
 #print axioms accepts_mono
 #print axioms conforming_int_accepted
@@ -270,3 +272,26 @@ open GqlVerif.C01
 #print axioms GqlVerif.C01M.sk_roundtrip
 #print axioms GqlVerif.C01M.sk_content
 #print axioms GqlVerif.C01M.sk_not_content_noskip
+-- NestedOp: fragment bodies that spread further fragments, to any depth, at object positions (Proofs/C01Nested*.lean, P45)
+#print axioms GqlVerif.C01N.nested_items_shape
+#print axioms GqlVerif.C01N.nested_fragment_shape
+#print axioms GqlVerif.C01N.nestedOp_of_mixedOp
+#print axioms GqlVerif.C01N.nested_accepts
+#print axioms GqlVerif.C01N.nested_lossless
+#print axioms GqlVerif.C01N.nested_roundtrip
+#print axioms GqlVerif.C01N.canonSelN_eq_M
+#print axioms GqlVerif.C01N.conformsOpN_eq_M
+#print axioms GqlVerif.C01N.conformsLooseN_eq_M
+#print axioms GqlVerif.C01N.nestedKeysOk_of_mixed
+#print axioms GqlVerif.C01N.nestedRustOk_of_mixed
+#print axioms GqlVerif.C01N.nested_roundtrip_on_M
+#print axioms GqlVerif.C01N.okB_deStructMapN
+#print axioms GqlVerif.C01N.deStructN_finds
+#print axioms GqlVerif.C01N.nx_roundtrip
+#print axioms GqlVerif.C01N.nx2_roundtrip
+#print axioms GqlVerif.C01N.n3_roundtrip
+#print axioms GqlVerif.C01N.nx2_accepts
+#print axioms GqlVerif.C01N.nx2_items_shape
+#print axioms GqlVerif.C01N.n3_items_shape
+#print axioms GqlVerif.C01N.nested_keys_needed
+#print axioms GqlVerif.C01N.nested_rust_needed
